@@ -68,6 +68,9 @@ func init() {
 		"path/filepath.Base": func(ex *Exec, fn *ssa.Function, a []Value) Value {
 			return &StrVal{S: filepath.Base(ex.concStr(a[0].(*StrVal)))}
 		},
+		"os.MkdirTemp": func(ex *Exec, fn *ssa.Function, a []Value) Value {
+			return &Agg{E: []Value{&StrVal{S: "<tmpdir>"}, &IfaceVal{}}}
+		},
 		"(*github.com/jmsadair/raft.Configuration).String": func(ex *Exec, fn *ssa.Function, a []Value) Value {
 			p := a[0].(*Ptr)
 			if p.C == nil {
